@@ -95,20 +95,3 @@ Fixpoint enc (t : ty) (v : val) {struct v} : bytes :=
   | _, _ => []
   end.
 
-(* the published example: f(uint256,uint32[],bytes10,bytes) with (0x123, [0x456, 0x789], "1234567890", "Hello, world!") *)
-From FFS Require Import Base.Lit.
-From Coq Require Import String.
-Example enc_solidity_doc_example :
-  enc (TTuple [TUInt 256; TDynArr (TUInt 32); TBytesN 10; TBytes])
-      (VList [VNum 0x123; VList [VNum 0x456; VNum 0x789];
-              VBytes (unhex "31323334353637383930"); VBytes (unhex "48656c6c6f2c20776f726c6421")])
-  = unhex ("0000000000000000000000000000000000000000000000000000000000000123"
-        ++ "0000000000000000000000000000000000000000000000000000000000000080"
-        ++ "3132333435363738393000000000000000000000000000000000000000000000"
-        ++ "00000000000000000000000000000000000000000000000000000000000000e0"
-        ++ "0000000000000000000000000000000000000000000000000000000000000002"
-        ++ "0000000000000000000000000000000000000000000000000000000000000456"
-        ++ "0000000000000000000000000000000000000000000000000000000000000789"
-        ++ "000000000000000000000000000000000000000000000000000000000000000d"
-        ++ "48656c6c6f2c20776f726c642100000000000000000000000000000000000000")%string.
-Proof. vm_compute. reflexivity. Qed.
